@@ -173,9 +173,16 @@ class Properties(Container):
         if nc is not None:
             out.append(f"{name}.nc_set_variable({nc!r})")
 
-        # netCDF dimension names (bounds, interior ring, count and
-        # index variables, etc.)
-        for nc_name in ("dimension", "sample_dimension"):
+        # Other netCDF names (dimensions of bounds, interior ring,
+        # count, index and tie point index variables; geometry
+        # container variable of a field or domain)
+        for nc_name in (
+            "dimension",
+            "sample_dimension",
+            "subsampled_dimension",
+            "interpolation_subarea_dimension",
+            "geometry_variable",
+        ):
             nc_get = getattr(self, f"nc_get_{nc_name}", None)
             if nc_get is None:
                 continue
